@@ -1713,4 +1713,19 @@ theorem finalS_append (orc : Oracle) (ops ops' : List Op) : ∀ s : SState,
   | nil => intro s; rfl
   | cons op rest ih => intro s; exact ih _
 
+theorem final_append (orc : Oracle) (ops ops' : List Op) : ∀ c : Core,
+    final orc c (ops ++ ops') = final orc (final orc c ops) ops' := by
+  induction ops with
+  | nil => intro c; rfl
+  | cons op rest ih => intro c; exact ih _
+
+/-- the sequential order an overlapped call is equivalent to -/
+def linearized (lv : LevelArg) (M : Option Str) (lazy early : Bool) (p : Option Str) (st : Bool) : List Op :=
+  if early then [.activate p st, .log lv M lazy] else [.log lv M lazy, .activate p st]
+
+theorem finalS_linearized (orc : Oracle) (s : SState) (lv : LevelArg) (M : Option Str) (lazy early : Bool)
+    (p : Option Str) (st : Bool) :
+    finalS orc s [.logDuring lv M lazy early p st] = finalS orc s (linearized lv M lazy early p st) := by
+  cases early <;> rfl
+
 end Dispatch
